@@ -155,8 +155,8 @@ def main():
 
     # ---- code -> spec: call / pedigree dict caches ---------------------------------
     dt = []
-    for s in range(3 if quick else 10):
-        dt.append({"op": "call_trace", "P": 2 + s % 3, "N": 3, "K": 4 + s % 3, "seed": ck.seed * 31 + s, "step_type": ["Gibbs", "Metropolis-Hastings"][s % 2], "steps": 10 if quick else 30})
+    for s in range(5 if quick else 15):
+        dt.append({"op": "call_trace", "P": [6, 2, 5, 3, 4][s % 5], "N": 3, "K": 4 + s % 3, "seed": ck.seed * 31 + s, "step_type": ["Gibbs", "Metropolis-Hastings"][s % 2], "steps": 10 if quick else 30})
     peds = [("trio", [1, 6, 3]), ("trio", [6, 1, 3]), ("trio_rev", [1, 6, 3]), ("tetra", [2, 7, 4]), ("mixed", [1, 5, 3]), ("mixed", [5, 1, 3]), ("halfsib", [1, 6, 2, 3, 3])]
     for s in range(2 if quick else 8):
         for ped, nd in peds:
